@@ -9,12 +9,17 @@ for f in sorted(glob.glob(os.path.join(VERIF, 'seeded', '*', '*', 'meta.json')))
     kind = ''
     if own.get('violation'):
         kind = 'no-failing-input-found' if 'no-failing-input-found' in own['violation'][0] else 'failing input'
+    fin = m.get('final_own_check')
+    if fin:          # the evaluation on the final tree (tools/seed_recheck.py) takes precedence over the one made when the change was written
+        kind = {'input': 'failing input', 'tie/corr.': 'no-failing-input-found'}.get(fin, '')
+        m['caught_by_own_check'] = fin in ('input', 'tie/corr.')
     rows.append((m['property'], 'm%s' % m.get('mutant'), ', '.join(os.path.basename(x) for x in m.get('files', [])), m.get('clause', '')[:150].replace('|', '/'),
                  'yes' if m.get('confirmed') else 'NO', 'yes' if m.get('caught_by_own_check') else 'NO', kind, ' '.join(m.get('caught_by', []))))
 out = ['# Seeded changes and which checks catch them', '',
        'Each change was written by a fresh sub-agent that saw only the property text and a scratch worktree of the repository.',
        '"confirmed" = the unedited test suite still passes (150 passed), the demonstration fails on the changed tree and passes on the clean one.',
-       '"own check" = `./check <property> quick` exits 1 with a VIOLATION line on the changed tree; "how" says whether a concrete failing input was found.', '',
+       '"own check" = `./check <property> quick` exits 1 with a VIOLATION line on the changed tree (as re-evaluated on the final tree by tools/seed_recheck.py); "how" says whether a concrete failing input was found.',
+       '"all checks that exit 1" is from the batch evaluation made when the change was written (empty for changes that were only evaluated against their own check).', '',
        '| property | mutant | file | clause broken | confirmed | own check catches | how | all checks that exit 1 |', '|---|---|---|---|---|---|---|---|']
 for r in rows:
     out.append('| ' + ' | '.join(r) + ' |')
